@@ -938,13 +938,45 @@ pub mod vh1 {
         pub upload_end: String,
         /// everything the codec wrote to the transport
         pub transport_out: Vec<u8>,
+        /// the client saw the end of the stream (the codec shut the transport down)
+        pub transport_eof: bool,
+        /// the second `listen()` (the one relaying the payload) returned `Ok`
+        pub session_ok: bool,
+    }
+
+    /// how the client side of [`session_with`] behaves
+    #[derive(Debug, Clone)]
+    pub struct ClientOpts {
+        /// capacity of the in-memory transport (a small one makes the codec block while writing)
+        pub capacity: usize,
+        /// the client reads this many bytes at a time, yielding in between (0: as fast as it can)
+        pub read_step: usize,
+        /// drop the response sink right after `eof()` instead of flushing it first
+        pub drop_sink_after_eof: bool,
+    }
+
+    impl Default for ClientOpts {
+        fn default() -> Self {
+            ClientOpts { capacity: 1 << 20, read_step: 0, drop_sink_after_eof: false }
+        }
     }
 
     /// Feed `chunks` (one transport write each, yielding in between; then EOF) to a fresh
     /// `Http1Codec`, answer the first request with `200` (when `respond`) and `download`
     /// bytes, and drain the upload side.
     pub async fn session(settings: Arc<crate::settings::Settings>, chunks: Vec<Vec<u8>>, respond: bool, download: Vec<u8>) -> H1Obs {
-        let (client, server) = tokio::io::duplex(1 << 20);
+        session_with(settings, chunks, respond, download, ClientOpts::default()).await
+    }
+
+    /// [`session`] with a chosen client behaviour
+    pub async fn session_with(
+        settings: Arc<crate::settings::Settings>,
+        chunks: Vec<Vec<u8>>,
+        respond: bool,
+        download: Vec<u8>,
+        opts: ClientOpts,
+    ) -> H1Obs {
+        let (client, server) = tokio::io::duplex(opts.capacity.max(1));
         let (mut cr, mut cw) = tokio::io::split(client);
         let mut codec = http1_codec::Http1Codec::new(settings, Transport(server), crate::log_utils::IdChain::empty());
         let writer = tokio::spawn(async move {
@@ -959,11 +991,25 @@ pub mod vh1 {
             }
             let _ = cw.shutdown().await;
         });
+        let read_step = opts.read_step;
         let reader = tokio::spawn(async move {
             use tokio::io::AsyncReadExt;
             let mut all = vec![];
-            let _ = cr.read_to_end(&mut all).await;
-            all
+            if read_step == 0 {
+                let eof = cr.read_to_end(&mut all).await.is_ok();
+                return (all, eof);
+            }
+            let mut buf = vec![0u8; read_step];
+            loop {
+                match cr.read(&mut buf).await {
+                    Ok(0) => return (all, true),
+                    Ok(n) => all.extend_from_slice(&buf[..n]),
+                    Err(_) => return (all, false),
+                }
+                for _ in 0..8 {
+                    tokio::task::yield_now().await;
+                }
+            }
         });
         let mut obs = H1Obs::default();
         match codec.listen().await {
@@ -1016,18 +1062,22 @@ pub mod vh1 {
                 }
                 if let Some(mut s) = sink {
                     let _ = s.eof();
-                    let _ = s.flush().await;
+                    if !opts.drop_sink_after_eof {
+                        let _ = s.flush().await;
+                    }
                 }
                 drop(source);
-                let _ = pump.await;
+                obs.session_ok = tokio::time::timeout(std::time::Duration::from_secs(5), pump).await.ok().and_then(|x| x.ok()).unwrap_or(false);
             }
         }
         let _ = writer.await;
-        obs.transport_out = tokio::time::timeout(std::time::Duration::from_secs(2), reader)
+        let (out, eof) = tokio::time::timeout(std::time::Duration::from_secs(2), reader)
             .await
             .ok()
             .and_then(|x| x.ok())
             .unwrap_or_default();
+        obs.transport_out = out;
+        obs.transport_eof = eof;
         obs
     }
 }
